@@ -57,6 +57,8 @@ type link struct {
 	qIA, qAI    [][]byte
 	dead        bool
 	writeBroken bool
+	closedI     bool // the initiator / the acceptor has closed its end; frames it wrote before are still deliverable
+	closedA     bool
 }
 
 func (l *link) kill() {
@@ -115,7 +117,22 @@ func (l *link) pump(from net.Conn, toA bool, n *Net) {
 				n.Closes = append(n.Closes, Close{T: n.Now(), FromI: toA})
 				n.mu.Unlock()
 			}
-			l.kill()
+			// what this engine wrote before closing still reaches the other one (which then sees the close); what was
+			// on its way to this engine is lost
+			l.mu.Lock()
+			pending := 0
+			if toA {
+				l.closedI, l.qAI = true, nil
+				pending = len(l.qIA)
+			} else {
+				l.closedA, l.qIA = true, nil
+				pending = len(l.qAI)
+			}
+			both := l.closedI && l.closedA
+			l.mu.Unlock()
+			if pending == 0 || both || already {
+				l.kill()
+			}
 			return
 		}
 	}
@@ -325,6 +342,13 @@ func (n *Net) Forward(toA bool) []byte {
 	n.Events = append(n.Events, st)
 	n.mu.Unlock()
 	if _, err := dst.Write(f); err != nil {
+		l.kill()
+	}
+	// the last frame of an engine that has closed its end is through: the other one now sees the close
+	l.mu.Lock()
+	done := (toA && l.closedI && len(l.qIA) == 0) || (!toA && l.closedA && len(l.qAI) == 0)
+	l.mu.Unlock()
+	if done {
 		l.kill()
 	}
 	return f
